@@ -37,14 +37,15 @@ Section DocProofs.
   Lemma env_facts :
     (e_pg E <> [] /\ e_pm E <> [] /\ e_pr E <> [] /\ e_pgrp E <> []) /\
     (head_of (e_pm E) <> head_of (e_pr E) /\ head_of (e_pm E) <> head_of (e_pgrp E) /\
-     head_of (e_pr E) <> head_of (e_pgrp E)) /\
+     head_of (e_pr E) <> head_of (e_pgrp E) /\
+     head_of (e_pg E) <> head_of (e_pm E) /\ head_of (e_pg E) <> head_of (e_pr E)) /\
     nodupb [e_lower E; e_upper E; e_zero E; e_minf E; e_pinf E] = true /\
     forallb (fun s => negb (is_nil s) && negb (head_of s =? head_of (e_pr E)))
             [e_lower E; e_upper E; e_zero E; e_minf E; e_pinf E] = true.
   Proof.
     pose proof HE as H. unfold env_ok in H. rewrite !andb_true_iff in H.
-    destruct H as [[[[[[[[H1 H2] H3] H4] H5] H6] H7] H8] H9].
-    apply negb_true_iff in H5, H6, H7. apply Z.eqb_neq in H5, H6, H7.
+    destruct H as [[[[[[[[[[H1 H2] H3] H4] H5] H6] H7] H7a] H7b] H8] H9].
+    apply negb_true_iff in H5, H6, H7, H7a, H7b. apply Z.eqb_neq in H5, H6, H7, H7a, H7b.
     repeat split; try (apply prefix_ok_ne; assumption); assumption.
   Qed.
 
@@ -84,6 +85,12 @@ Section DocProofs.
   Proof. intros s. apply f_rev_head. apply env_facts. Qed.
   Lemma head_enc_grp : forall s, head_of (enc_grp s) = head_of (e_pgrp E).
   Proof. intros s. apply f_rev_head. apply env_facts. Qed.
+
+  Lemma head_enc_g : forall s, head_of (enc_g s) = head_of (e_pg E).
+  Proof.
+    intros s. unfold SbmlDoc.enc_g, f_gene_rev. destruct (e_pg E) eqn:Ep; [|reflexivity].
+    exfalso. destruct env_facts as [[H _] _]. congruence.
+  Qed.
 
   Lemma head_neq_str : forall a b, head_of a <> head_of b -> str_eqb a b = false.
   Proof. intros a b H. apply str_eqb_neq. intros ->. apply H. reflexivity. Qed.
@@ -658,32 +665,48 @@ Section DocProofs.
   (* ---------------------------------------------------------------- groups *)
   Section Groups.
     Variable d : doc.
-    Variable mids rids : list str.
+    Variable mids rids gids : list str.
     Variable groups : list agroup.
     Hypothesis Hg : map dg_id (d_groups d) = map (fun g => enc_grp (gr_id g)) groups.
     Hypothesis Hr : map dr_id (d_rxns d) = map enc_r rids.
     Hypothesis Hs : map sp_id (d_species d) = map enc_m mids.
+    Hypothesis Hp : map (fun g : str * str * str => fst (fst g)) (d_gps d) = map enc_g gids.
     Hypothesis Hmids : forall k, In k mids -> sid_ok (e_pm E) k = true.
     Hypothesis Hrids : forall k, In k rids -> sid_ok (e_pr E) k = true.
+    Hypothesis Hgids : forall k, In k gids -> gene_sid_ok dec E k = true.
 
-    Lemma read_member_ok : forall p, member_ok mids rids p = true ->
+    Lemma read_member_ok : forall p, member_ok dec E mids rids gids (map gr_id groups) p = true ->
       read_member undec E d (enc_member dec E p) = Ok [p].
     Proof.
-      intros [k i] H. unfold member_ok in H. cbn [fst snd] in H. destruct env_facts as [_ [[D1 [D2 D3]] _]].
-      unfold read_member, enc_member. cbn [fst snd]. rewrite Hg, Hr, Hs.
-      apply orb_true_iff in H. destruct H as [H|H]; apply andb_true_iff in H; destruct H as [Hk Hi];
-        apply Z.eqb_eq in Hk; subst k; apply str_mem_In in Hi; cbn [Z.eqb Pos.eqb].
-      - rewrite (not_in_by_head (fun g => enc_grp (gr_id g)) (enc_m i) groups (head_of (e_pgrp E)));
+      intros [k i] H. unfold member_ok in H. cbn [fst snd] in H.
+      destruct env_facts as [_ [[D1 [D2 [D3 [D4 D5]]]] _]].
+      unfold read_member, enc_member. cbn [fst snd]. rewrite Hg, Hr, Hs, Hp.
+      apply orb_true_iff in H. destruct H as [H|H]; [apply orb_true_iff in H; destruct H as [H|H]|].
+      - apply andb_true_iff in H. destruct H as [Hk Hi]. apply Z.eqb_eq in Hk. subst k. apply str_mem_In in Hi.
+        cbn [Z.eqb Pos.eqb].
+        rewrite (not_in_by_head (fun g => enc_grp (gr_id g)) (enc_m i) groups (head_of (e_pgrp E)));
           [|rewrite head_enc_m; exact D2|intros; apply head_enc_grp].
+        rewrite (not_in_by_head enc_g (enc_m i) gids (head_of (e_pg E)));
+          [|rewrite head_enc_m; intros Heq; apply D4; symmetry; exact Heq|intros; apply head_enc_g].
+        rewrite andb_false_r.
         rewrite (not_in_by_head enc_r (enc_m i) rids (head_of (e_pr E)));
           [|rewrite head_enc_m; exact D1|intros; apply head_enc_r].
         rewrite (str_mem_map enc_m mids i Hi). rewrite (dec_enc_m i (Hmids i Hi)). reflexivity.
-      - rewrite (not_in_by_head (fun g => enc_grp (gr_id g)) (enc_r i) groups (head_of (e_pgrp E)));
+      - apply andb_true_iff in H. destruct H as [Hk Hi]. apply Z.eqb_eq in Hk. subst k. apply str_mem_In in Hi.
+        cbn [Z.eqb Pos.eqb].
+        rewrite (not_in_by_head (fun g => enc_grp (gr_id g)) (enc_r i) groups (head_of (e_pgrp E)));
           [|rewrite head_enc_r; exact D3|intros; apply head_enc_grp].
+        rewrite (not_in_by_head enc_g (enc_r i) gids (head_of (e_pg E)));
+          [|rewrite head_enc_r; intros Heq; apply D5; symmetry; exact Heq|intros; apply head_enc_g].
+        rewrite andb_false_r.
         rewrite (str_mem_map enc_r rids i Hi). rewrite (dec_enc_r i (Hrids i Hi)). reflexivity.
+      - rewrite !andb_true_iff in H. destruct H as [[[Hk He] Hi] Hn]. apply Z.eqb_eq in Hk. subst k.
+        apply str_mem_In in Hi. apply negb_true_iff in Hn. rewrite map_map in Hn.
+        cbn [Z.eqb]. rewrite Hn, He. rewrite (str_mem_map enc_g gids i Hi). cbn [andb].
+        rewrite (dec_enc_g i (Hgids i Hi)). reflexivity.
     Qed.
 
-    Lemma read_group_ok : forall g, group_ok E mids rids g = true ->
+    Lemma read_group_ok : forall g, group_ok dec E mids rids gids (map gr_id groups) g = true ->
       read_group undec E d (write_group dec E g) = Ok (norm_group g).
     Proof.
       intros g H. unfold group_ok in H. apply andb_true_iff in H. destruct H as [H1 H2].
@@ -691,7 +714,7 @@ Section DocProofs.
       rewrite (req_ok _ (enc_grp_ne _)). cbn [bind].
       rewrite (mapM_ok (read_member undec E d) (enc_member dec E) (fun p => [p]) (gr_members g)).
       - cbn [bind]. rewrite concat_singletons, (dec_enc_grp _ H1). reflexivity.
-      - intros p Hp. apply read_member_ok. rewrite forallb_forall in H2. apply H2. exact Hp.
+      - intros p Hp'. apply read_member_ok. rewrite forallb_forall in H2. apply H2. exact Hp'.
     Qed.
   End Groups.
 
@@ -749,12 +772,14 @@ Section DocProofs.
     rewrite str_eqb_refl.
     rewrite (objective_read rxns Nr Hrok). cbn [bind fst snd].
     rewrite (mapM_ok (read_group undec E _) (write_group dec E) norm_group groups).
-    2:{ intros g Hg. apply (read_group_ok _ mids (rids_of rxns) groups).
+    2:{ intros g Hg. apply (read_group_ok _ mids (rids_of rxns) gids groups).
         - cbn [d_groups]. rewrite map_map. reflexivity.
         - cbn [d_rxns]. unfold rids_of. rewrite !map_map. apply map_ext. intros [r rule]. reflexivity.
         - cbn [d_species]. unfold mids. rewrite !map_map. reflexivity.
+        - cbn [d_gps]. unfold gids. rewrite !map_map. reflexivity.
         - exact Hmids.
         - exact Hrids.
+        - exact Hgids.
         - rewrite forallb_forall in H7. apply H7. exact Hg. }
     cbn [bind].
     assert (Hgi : map gr_id (map norm_group groups) = map gr_id groups) by (rewrite map_map; reflexivity).
